@@ -28,6 +28,13 @@ Theorem C06_encoding_injective : forall v w,
 Proof. exact encode_inj. Qed.
 Print Assumptions C06_encoding_injective.
 
+(* no encoding is a proper prefix of another: a value is delimited by its own bytes, so a concatenation
+   (a value inside a list or dictionary, the raw span of `info` that is hashed) parses in one way only *)
+Theorem C06_encoding_prefix_free : forall v w r r',
+  nodup_keys v -> nodup_keys w -> encode v ++ r = encode w ++ r' -> v = w /\ r = r'.
+Proof. exact encode_prefix_free. Qed.
+Print Assumptions C06_encoding_prefix_free.
+
 (* what sort_meta / the edit's final sort do: sorting a duplicate-free dictionary whose values are
    canonical gives a canonical dictionary *)
 Theorem C06_sorting_makes_canonical : forall d,
